@@ -876,8 +876,14 @@ class Geodesic(PointPair, Subspace):
             A `Geodesic` fixed by the given isometry.
 
     """
-        if reflection.dimension != 2:
-            raise GeometryError("Creating segment from reflection expects dimension 2, got dimension {}".format(reflection.dimension))
+        try:
+            dimension = reflection.dimension
+        except AttributeError:
+            # a bare array, as Hyperplane.from_reflection accepts it
+            dimension = np.shape(reflection)[-1] - 1
+
+        if dimension != 2:
+            raise GeometryError("Creating segment from reflection expects dimension 2, got dimension {}".format(dimension))
 
         hyperplane = Hyperplane.from_reflection(reflection)
         pt1 = hyperplane.ideal_basis[..., 0, :]
